@@ -102,7 +102,17 @@ class CallMixin:
                     continue
                 path.guards.append(g)
                 try:
-                    parts.append((g, self.getattr(b, attr, path, node)))
+                    try:
+                        parts.append((g, self.getattr(b, attr, path, node)))
+                    except Unsupported:
+                        if isinstance(b, (sv.SStr, sv.SInt, sv.SReal, sv.SBool, sv.STime, sv.STup)):
+                            path.guards.pop()
+                            try:
+                                self.safe(path, "attr", sv.Not(g), node)  # AttributeError on this alternative
+                            finally:
+                                path.guards.append(g)
+                        else:
+                            raise
                 finally:
                     path.guards.pop()
             if not parts:
@@ -444,16 +454,8 @@ class CallMixin:
         self.inlined.add(fi.qual)
         p = path.clone()
         p.env = dict(argmap)
-        p.guards = []
-        guard = sv.And(*path.guards) if path.guards else None
-        if guard is not None and not sv.is_true(sv.simp(guard)):
-            # executing a body under an expression-level guard: fork instead
-            k = self.choose(path, [guard, sv.Not(guard)])
-            if k == 1:
-                return sv.SPy("unreachable")
-            p = path.clone()
-            p.env = dict(argmap)
-            p.guards = []
+        # expression-level guards stay active inside the inlined body: every assumption and
+        # obligation made there is conditional on the guard
         self.frames.append(Frame(fi.module, fi, fi.cls))
         self.frame_depth += 1
         saved_line = self.cur_line
@@ -663,7 +665,9 @@ class CallMixin:
             if attr == "items":
                 return sv.SPy("seq", _seq(base.keys.n, lambda i, base=base: sv.STup([base.keys.at(i), base.val(self.key_expr(base.keys.at(i)))])))
             if attr == "values":
-                return sv.SPy("seq", _seq(base.keys.n, lambda i, base=base: base.val(self.key_expr(base.keys.at(i)))))
+                sq = _seq(base.keys.n, lambda i, base=base: base.val(self.key_expr(base.keys.at(i))))
+                sq.dict_src = base  # lets min/any/all state their facts per key as well as per position
+                return sv.SPy("seq", sq)
             if attr == "keys":
                 return sv.SPy("seq", _seq(base.keys.n, base.keys.at))
             if attr == "get":
